@@ -190,6 +190,78 @@ def permuteList : List (NT O) → List Nat → List (NT O)
   | m :: r, p => permute m p :: permuteList r p
 end
 
+/-! ### reshape / view / flatten / unflatten (tensordict/_lazy.py:_view, tensorclass.py:NonTensorStack.reshape) -/
+
+/-- `math.prod` -/
+def prodL : List Nat → Nat
+  | [] => 1
+  | d :: ds => d * prodL ds
+
+/-- SPEC: row-major rank of a coordinate in a shape -/
+def ravel : List Nat → Shape → Nat
+  | p :: c, _ :: s => p * prodL s + ravel c s
+  | _, _ => 0
+
+/-- _lazy.py:_view, `is_flatten` branch, the loop `for _ in range(i, j + 1): tds = [_td for local_td in tds for _td in local_td.unbind(i)]` -/
+def unbindLevels : Nat → List (NT O) → Nat → List (NT O)
+  | 0, tds, _ => tds
+  | n + 1, tds, i => unbindLevels n (tds.flatMap (fun t => unbind t i)) i
+
+/-- _lazy.py:_view, `is_flatten` branch: dims `i … j` (inclusive) merged into one: `_new_lazy_unsafe(*tds, stack_dim=i)` -/
+def flattenDims (r : NT O) (i j : Nat) : NT O :=
+  .stack (unbindLevels (j + 1 - i) [r] i) i
+
+/-- `-(a // -b)`: number of pieces of a dim of size `a` cut in pieces of `b` -/
+def ceilDiv (a b : Nat) : Nat := (a + b - 1) / b
+
+mutual
+/-- mirrors `split(split_size: int, dim)`: NonTensorData → one shared piece per slice (`_td.py:split`: sizes
+`min(split_size, remaining)`); NonTensorStack → slices of the member list (dim = stack_dim) or a re-stack of the members'
+pieces (`_lazy.py:split`).  Dims of positive size (a zero-size dim gives one empty piece in the code). -/
+def splitNT : NT O → Nat → Nat → List (NT O)
+  | .shared o s, n, d =>
+    (List.range (ceilDiv (s.getD d 0) n)).map (fun p => .shared o (s.set d (min n (s.getD d 0 - p * n))))
+  | .stack ms sd, n, d =>
+    if d = sd then (List.range (ceilDiv ms.length n)).map (fun p => .stack ((ms.drop (p * n)).take n) sd)
+    else
+      let sub := if d < sd then d else d - 1
+      (transposeLists (splitList ms n sub)).map (fun vals => .stack vals sd)
+def splitList : List (NT O) → Nat → Nat → List (List (NT O))
+  | [], _, _ => []
+  | m :: r, n, d => splitNT m n d :: splitList r n d
+end
+
+/-- base.py:chunk: `split(ceil(batch_size[dim] / chunks), dim)` -/
+def chunk (r : NT O) (chunks dim : Nat) : List (NT O) :=
+  splitNT r (ceilDiv ((shape r).getD dim 0) chunks) dim
+
+/-- _lazy.py:_view, `is_unflatten` branch: `for k in range(i, j): tds = _new_lazy_unsafe(*tds.chunk(shape[k], dim=k), stack_dim=k)`;
+`sizes` = the new sizes `shape[i … j-1]` (all but the last new dim) -/
+def unflattenLoop : List Nat → NT O → Nat → NT O
+  | [], r, _ => r
+  | n :: rest, r, k => unflattenLoop rest (.stack (chunk r n k) k) (k + 1)
+
+/-- utils.py:_check_is_flatten(new_shape, old_shape, return_flatten_dim=True): `new` is `old` with the consecutive dims
+`i … j` merged into one -/
+def checkIsFlatten (new old : Shape) : Option (Nat × Nat) :=
+  if new ≠ [] ∧ new.length ≤ old.length then
+    (List.range new.length).findSome? (fun i =>
+      let j := i + (old.length - new.length)
+      if new.take i = old.take i ∧ new.drop (i + 1) = old.drop (j + 1)
+          ∧ new.getD i 0 = prodL ((old.drop i).take (j + 1 - i)) then some (i, j) else none)
+  else none
+
+/-- _lazy.py:_view on a NonTensorStack for a resolved target shape: the flatten branch, else the unflatten branch
+(`_check_is_unflatten(shape, batch_size) = _check_is_flatten(batch_size, shape)`), else `none` (view raises; the lazy
+`reshape` falls back on TensorDict.reshape) -/
+def viewStack (r : NT O) (s' : Shape) : Option (NT O) :=
+  match checkIsFlatten s' (shape r) with
+  | some (i, j) => some (flattenDims r i j)
+  | none =>
+    match checkIsFlatten (shape r) s' with
+    | some (i, j) => some (unflattenLoop ((s'.drop i).take (j - i)) r i)
+    | none => none
+
 /-! ### indexing -/
 
 /-- an index item after normalisation against the batch shape (python rules: negative wrap,
@@ -264,6 +336,34 @@ inductive IErr where
   | empty       -- a lazy stack of nothing
   | shape       -- index does not fit the batch shape
   deriving Repr, DecidableEq
+
+/-- `entry.reshape(shape)` for a resolved, non-empty target shape.  NonTensorData: the same payload on the new batch
+size (TensorDict.reshape of the wrapped empty tensordict).  NonTensorStack: tensorclass.py:NonTensorStack.reshape — through the
+flat stack when the target is neither a flatten nor an unflatten of consecutive dims, else `_view`. -/
+def reshapeNT (r : NT O) (s' : Shape) : Except IErr (NT O) :=
+  match r with
+  | .shared o s => if prodL s' = prodL s then .ok (.shared o s') else .error .shape
+  | .stack _ _ =>
+    if 1 < s'.length ∧ 1 < (shape r).length ∧ s' ≠ shape r ∧ prodL s' = prodL (shape r)
+        ∧ checkIsFlatten s' (shape r) = none ∧ checkIsFlatten (shape r) s' = none then
+      match viewStack r [prodL (shape r)] with
+      | some flat =>
+        match viewStack flat s' with
+        | some u => .ok u
+        | none => .error .shape
+      | none => .error .shape
+    else
+      match viewStack r s' with
+      | some u => .ok u
+      | none => .error .shape
+
+/-- `entry.view(shape)` on a NonTensorStack (`_view(raise_if_not_view=True)`): only the two lazy branches -/
+def viewNT (r : NT O) (s' : Shape) : Except IErr (NT O) :=
+  match r with
+  | .shared o s => if prodL s' = prodL s then .ok (.shared o s') else .error .shape
+  | .stack _ _ => match viewStack r s' with
+    | some u => .ok u
+    | none => .error .shape
 
 mutual
 /-- mirrors `__getitem__` with a (resolved) batch index: NonTensorData keeps its payload and takes the
